@@ -99,7 +99,7 @@ class ECDH1PUAlgModel(JWEKeyAgreement):
         ephemeral_shared_key = ephemeral_key.exchange_derive_key(recipient_key)
         shared_key = ephemeral_shared_key + sender_shared_key
         headers = recipient.headers()
-        return derive_key_for_concat_kdf(shared_key, headers, enc.cek_size, self.key_size, tag)
+        return derive_key_for_concat_kdf(shared_key, {**headers, "enc": enc.name}, enc.cek_size, self.key_size, tag)
 
     def __decrypt_agreed_upon_key(
             self,
@@ -124,7 +124,7 @@ class ECDH1PUAlgModel(JWEKeyAgreement):
         sender_shared_key = recipient_key.exchange_derive_key(sender_key)
         ephemeral_shared_key = recipient_key.exchange_derive_key(ephemeral_key)
         shared_key = ephemeral_shared_key + sender_shared_key
-        return derive_key_for_concat_kdf(shared_key, headers, enc.cek_size, self.key_size, tag)
+        return derive_key_for_concat_kdf(shared_key, {**headers, "enc": enc.name}, enc.cek_size, self.key_size, tag)
 
 
 JWE_ALG_MODELS = [
